@@ -143,7 +143,35 @@ def d3_det(facts, rep):
             ok = ok and len(args) == 2
         rep.ob('D3', 'K4', fn, 'the deterministic tree node splits the body eagerly and unconditionally', ok,
                'right_body is no longer split-constructed on every path of the node constructor')
-    rep.floor('D3', 7, 'witnesses + eager split')
+    # the split / join tree of parallel_deterministic_reduce may depend on the range and the grain size only.  Every partition type
+    # that start_deterministic_reduce is instantiated with (the overloads accept simple_partitioner and static_partitioner; the
+    # compile-fail witnesses above keep auto / affinity out) is searched, with its base classes, for a use of the arena's
+    # concurrency or of the executing thread's slot: such a partition type shapes the tree by the number of threads.
+    from rules.common import class_scope
+    CONC = ('get_initial_auto_partitioner_divisor', 'max_concurrency', 'execution_slot', 'current_thread_index')
+    pcls = {}
+    for fn in facts.fns.values():
+        if not fn.p.startswith(D1 + 'start_deterministic_reduce::'):
+            continue
+        for b, i, e in fn.iter_elems():
+            if isinstance(e, int) and fn.nodes[e].get('k') == 'ctor' and (fn.nodes[e].get('cls') or '').endswith('_partition_type'):
+                pcls.setdefault(fn.nodes[e]['cls'], fn)
+    if len(pcls) < 1:
+        raise AnalysisBroken('start_deterministic_reduce: partition types not found')
+    for cls_p, user in sorted(pcls.items()):
+        scope = class_scope(facts, cls_p)
+        uses = []
+        anchor = None
+        for g in facts.fns.values():
+            if g.cls in scope:
+                for c in calls_named(g, CONC):
+                    uses.append('%s (line %s)' % (c[3].get('n'), c[2].get('ln')))
+                    anchor = anchor or g
+        rep.ob('D3', 'K11', anchor or user, 'the %s used by parallel_deterministic_reduce shapes its tree without consulting the number of threads'
+               % cls_p.split('::')[-1], not uses,
+               'the partition type reads the arena concurrency / the thread slot: %s - the split tree, and with it a floating-point result, '
+               'differs between arenas of different concurrency' % ', '.join(sorted(set(uses))[:4]), key_extra='tree|%s' % cls_p)
+    rep.floor('D3', 9, 'witnesses + eager split + partition types')
 
 
 def d4_scan(facts, rep):
